@@ -1,6 +1,7 @@
 import WuffsVerif.Common.Line
 import WuffsVerif.Model.WSem
 import WuffsVerif.Model.CExpr
+import WuffsVerif.Model.Iterate
 /-! Line driver for C04.  Stateful ops:
 
   case <id> <serialised typed AST of one struct + its methods>   -> init ok | bad-program
@@ -76,6 +77,14 @@ def shapeStep (l : List String) : Option String :=
     match lowerAssign w t rc.isSome with
     | some a => pure (substAssign (fun i => if i == 1 then rc else none) a).show
     | none => pure "none"
+  | ["iterchain", n, spec] => do
+    -- the model of the emitted rounds (Model/Iterate.lean cChain), from offset 0
+    let n ← n.toNat?
+    let blocks ← (spec.splitOn ",").mapM (fun b => match b.splitOn ":" with
+      | [l, a, u] => do pure ((← l.toNat?), (← a.toNat?), (← u.toNat?))
+      | _ => none)
+    let vs := (WuffsVerif.Iterate.cChain n blocks 0).1
+    pure ("v " ++ String.join (vs.map (fun (o, l) => s!"({o},{l})")))
   | _ => none
 
 structure DSt where
